@@ -6,7 +6,10 @@ use std::path::PathBuf;
 use std::sync::Arc;
 
 use ahash::HashMap;
+#[cfg(not(feature = "verif-hooks"))]
 use parking_lot::{Mutex, RwLock};
+#[cfg(feature = "verif-hooks")]
+use crate::verif::{Mutex, RwLock};
 use thiserror::Error;
 
 use super::persistence::{IndexStatePersister, PersisterError};
@@ -26,7 +29,10 @@ pub(crate) struct Index<K> {
 /// Holds a shared read lock for the duration of the guard.
 /// Supports lookup, iteration, and range queries in key order.
 pub struct IndexReadGuard<'a, K> {
+    #[cfg(not(feature = "verif-hooks"))]
     inner: parking_lot::RwLockReadGuard<'a, IndexState<K>>,
+    #[cfg(feature = "verif-hooks")]
+    inner: crate::verif::RwLockReadGuard<'a, IndexState<K>>,
 }
 
 impl<'a, K> IndexReadGuard<'a, K> {
@@ -316,6 +322,8 @@ where
             (hashes, rolled)
         };
 
+        #[cfg(feature = "verif-hooks")]
+        crate::verif::point("apply_put:after_apply");
         intents.remove(&key);
 
         // Filter out any unreferenced hashes that are still referenced by other intents
@@ -328,6 +336,8 @@ where
         }
 
         drop(intents);
+        #[cfg(feature = "verif-hooks")]
+        crate::verif::point("apply:after_release");
 
         if rolled_over {
             let mut state = self.state.write();
@@ -354,6 +364,8 @@ where
             (hashes, rolled)
         };
 
+        #[cfg(feature = "verif-hooks")]
+        crate::verif::point("apply_remove:after_apply");
         // Remove any unreferenced hashes that are still referenced by intents
         unreferenced_from_op
             .retain(|hash| !intents.values().any(|intent_hash| intent_hash == hash));
@@ -364,6 +376,8 @@ where
         }
 
         drop(intents);
+        #[cfg(feature = "verif-hooks")]
+        crate::verif::point("apply:after_release");
 
         if rolled_over {
             let mut state = self.state.write();
@@ -395,8 +409,12 @@ where
         // 2. Set the version we're about to persist
         snapshot.last_persisted_version = Some(target_version);
 
+        #[cfg(feature = "verif-hooks")]
+        crate::verif::point("checkpoint:before_persist");
         let serialized_len = IndexStatePersister::new(&self.paths).save(snapshot)?;
         snapshot.stats.index.serialized_size_bytes = serialized_len;
+        #[cfg(feature = "verif-hooks")]
+        crate::verif::point("checkpoint:before_prune");
         // 3. Prune segments up to the target
         wal_guard
             .commit_checkpoint(target_version, current_checkpoint)
